@@ -1,8 +1,11 @@
 /-
   C09 — validate accepts what is well-formed and flags what is corrupt.
   Property theorems only; the lemmas live in FianoModel/Uefi/{ChecksumLemmas,ValidateLemmas,ValidateSerLen,
-  ValidateWf,ValidateImage}.lean.  All statements are unbounded: every image of the reference grammar, every byte
-  string, every alteration position, every replacement value.
+  ValidateWf,ValidateImage}.lean and, for the follow-up wp-c09b (image-level detection for every protected
+  node, validate on saved images, `regionsValid`), in Uefi/{ValidateLocal,ValidateLocalFv,ValidateScan,
+  ValidatePath,ValidateTree,ValidateSample,ValidateWitnessA,ValidateWitnessB,ValidateSaved,ValidateBridgeCore,
+  ValidateBridge,ValidateRegions,ValidateGrammar}.lean (definitions only: ValidateLoc.lean).  All statements are unbounded: every image of the reference grammar, every byte
+  string, every alteration position, every replacement value, every path into the tree.
 
   Model: `validate : Tree → St → List VErr` (FianoModel/Uefi/Validate.lean) = `visitors.Validate.Run` with
   one `VErr` per error site; `St` carries `uefi.Attributes.ErasePolarity` as the parser left it.
@@ -13,6 +16,15 @@ import FianoModel.Uefi.ValidateWf
 import FianoModel.Uefi.ValidateImage
 import FianoModel.Uefi.ValidateTie
 import FianoModel.Uefi.Tie   -- audited as a tie module of this check: make sure it is built with it
+import FianoModel.Uefi.ValidateTree
+import FianoModel.Uefi.ValidateSample
+import FianoModel.Uefi.ValidateWitnessA
+import FianoModel.Uefi.ValidateWitnessB
+import FianoModel.Uefi.ValidateSaved
+import FianoModel.Uefi.ValidateBridgeCore
+import FianoModel.Uefi.ValidateBridge
+import FianoModel.Uefi.ValidateRegions
+import FianoModel.Uefi.ValidateGrammar
 import FianoModel.Uefi.CodeTie   -- T1 code-as-code tie (wp-t1x): audited as a tie module of this check
 
 namespace Fiano.Props.C09
@@ -135,11 +147,12 @@ theorem c09_sample_node_hyps :
   It is **false** as it stands — two excluded points are reproduced on the real code
   (corpus/C09/x-size-becomes-freespace.json, x-zerovector-signature.json; known findings) — and is proved
   below, on byte strings rather than on the grammar (so for *every* image that parses and validates cleanly,
-  grammar or not), for the volume at offset 0 of an image without flash descriptor: all its header bytes and
-  all protected bytes of the files directly inside it.  Not proved at image level (node level only, above):
-  later volumes of a BIOS region, volumes nested in sections, regions of a flash image with descriptor —
-  they need "the parser reaches the same node again", i.e. locality of the parser for everything that
-  precedes the altered node (checks.d/C09.json `unproved`). -/
+  grammar or not), first for the volume at offset 0 of an image without flash descriptor (the two `_partial`
+  theorems below: all its header bytes and all protected bytes of the files directly inside it), then — section
+  "every protected node" further down, `c09_alter_detected_image` — for every volume and file a path into
+  the tree selects: later volumes of a BIOS region, volumes nested in volume-image sections at any depth,
+  the BIOS region of a flash image with descriptor.  What makes the step possible is the locality of the
+  parser: the walk up to a node depends only on the headers of the nodes in front of it. -/
 
 /-- **C09b `alter_detected`, volume-header class, first volume** (`_partial`: first volume only).
     Hypothesis forced by the proof: the altered image is still not taken for a flash image (it can only fail
@@ -185,5 +198,316 @@ theorem c09_sample_image_hyps :
            hasChecksum f1.info.attrs && decide (fvPrologue b ≤ 150) && decide (b.length + 8 < 2 ^ 64)
          | _ => false)
       | .error _ => false)) = true := by decide +kernel
+
+/-! ## C09b at image level: every protected node (follow-up wp-c09b)
+
+  `Path := List Nat` selects a node of the parsed tree:
+
+      image without descriptor   n :: p      n-th volume of the region, then `p` inside it
+      flash image                ρ :: n :: p ρ-th region of the tree (the BIOS region), n-th volume, `p`
+      inside a volume            []          the volume (its header)
+                                 [k]         its k-th file
+                                 k :: j :: p file k, section j (a volume-image section), `p` in the nested volume
+
+  `locTree t path = some il` computes from the tree alone the absolute offset `il.pos` of the node's first
+  byte, the target (`il.loc.tgt`: a volume header or a file), the top-level volume (`il.vol`, relative to the
+  region at `il.region`), where the scan that found it started (`il.base`) and the volumes passed through.
+  Files inside decompressed sections are not image bytes and have no path. -/
+
+/-- **Locality of the volume scan** (`FindFirmwareVolumeOffset`).  The scan over `d` found a volume at `off`;
+    one byte `x` of `d` is altered; the scan finds the volume at `off` again when `x` lies behind the
+    volume's signature, or in front of it without making `_FVH` appear at the probe position whose 8-byte
+    stride contains `x` (`NewSig`). -/
+theorem c09_scan_local {d d' : Bytes} {off x : Nat} (h0 : findFvOffset d = some off) (ha : Alter d d' x)
+    (hx : off + 44 ≤ x ∨ (x < off + 40 ∧ ¬ NewSig d' x)) : findFvOffset d' = some off :=
+  findFvOffset_alter_stable h0 ha hx
+
+/-- **Locality of the volume parser.**  An alteration behind the `Length` bytes of a volume does not change
+    what `parseFv` returns: same node, same process state.  (The same holds for `parseFile`,
+    `parseFile_alter_beyond`; it does **not** hold for `parseSection`: a GUID-defined section decodes
+    `buf[DataOffset:]` to the end of the file and reads its sub-header from the unclipped buffer.  For the
+    loops — sections of a file, decoded payload, files of a volume, volumes of a region — the walk-level form
+    is proved: `parseSections_detect`, `parseEncap_detect`, `parseFiles_detect`, `biosElems_detect`.) -/
+theorem c09_parseFv_local {h : Hooks} {fuel : Nat} {data data' : Bytes} {off : Nat} {rs : Bool} {st st1 : St}
+    {fv : Fv} {q : Nat} (ha : Alter data data' q) (hp : parseFv h fuel data off rs st = .ok (fv, st1))
+    (hq : fv.info.length ≤ q) : parseFv h fuel data' off rs st = .ok (fv, st1) :=
+  parseFv_alter_beyond ha hp hq
+
+/-- **Detection along a path inside a volume the parser is handed** (a nested volume, or a top-level volume
+    once the scan has found it).  `fv` was parsed from `data` and passes with everything below it; the path
+    selects a node at offset `loc.off` of `data`; one protected byte of it is altered.  Then every volume
+    the parser reports on the altered bytes — from any process state, with any budget — fails validation.
+    Here **no byte of a volume header is excluded**, the signature included: `parseFv` does not look for the
+    volume.  Hypotheses: every volume whose file area the path enters keeps its files behind its header and
+    extended header; the buffer is shorter than 2^64 − 8; the altered header of a selected *file* is not the
+    free-space marker. -/
+theorem c09_alter_detected_in_volume (h : Hooks) (path : Path) {fuel : Nat} {data data' : Bytes} {off : Nat}
+    {rs : Bool} {st st1 : St} {fv : Fv} {loc : Loc} {r : Nat}
+    (hp : parseFv h fuel data off rs st = .ok (fv, st1)) (hv : vFv fv = [])
+    (hloc : locFv path fv = some loc) (hreg : ∀ v ∈ loc.through, v.regular)
+    (ha : Alter data data' (loc.off + r)) (hpr : loc.tgt.protects r) (hbig : data.length + 8 < 2 ^ 64)
+    (hfree : ∀ f, loc.tgt = .file f → ¬ FreeMarker data' loc.off) :
+    ∀ fuel' off' rs' st' fv' st2, parseFv h fuel' data' off' rs' st' = .ok (fv', st2) → vFv fv' ≠ [] :=
+  fv_path_detected h path fuel data data' off rs st st1 fv loc r hp hv hloc hreg ha hpr hbig hfree
+
+/-- **C09b `alter_detected`, every protected node.**  `b` parses to `t` and validates cleanly.  `path`
+    selects a volume or a file anywhere in the tree (`locTree`): any volume of an image without descriptor or
+    of the BIOS region of a flash image, any file directly inside, any volume nested in a volume-image section
+    at any depth and any file in it.  `b'` differs from `b` in exactly one protected byte of that node
+    (`Target.protects`: every byte of the volume header `[0, HeaderLen)`; every file-header byte but `State`
+    — size, attributes, `IntegrityCheck.File` included — and every byte of a body-checksummed file).  Then
+    parsing `b'` fails or validate reports at least one error.
+
+    Hypotheses:
+    * `hreg` — every volume whose file area the path enters keeps its files behind its header and extended
+      header (true of every volume of the reference grammar and of every volume the tool writes);
+    * `hbig` — the image is shorter than 2^64 − 8 bytes;
+    * `hflash` — the alteration neither creates nor destroys the flash-descriptor signature (automatic from
+      image offset 20 on: `c09_flash_signature_far`);
+    and the two **exceptions**, each a genuine miss reproduced on the real code (known findings), each with
+    a kernel-checked witness below:
+    * `hscan : ScanKept …` — the byte is not one of the four signature bytes of the *top-level* volume (the
+      exclusion the property itself makes; for nested volumes the signature is covered), and when it lies in
+      front of them it does not make `_FVH` appear at a position the volume scan probes before it reaches
+      the volume (F-C09-zerovector, `c09_exception_zerovector`);
+    * `hfree : ¬ FreeMarker …` — the selected node is a file and its altered header does not read "size
+      FFFFFF followed by eight erased bytes", which `NewFile` takes for the start of the free space
+      (F-C09-freespace, `c09_exception_freespace`).  The second form of free space the repaired reader knows
+      (fixes/C02-erased-tail-24) cannot arise from a one-byte alteration of a file that passes: proved, not
+      assumed (`parseFile_target_detect`). -/
+theorem c09_alter_detected_image (h : Hooks) {b b' : Bytes} {t : Tree} {st : St} {path : Path} {il : ImgLoc} {r : Nat}
+    (hparse : parseWith h (defaultFuel b) b {} = .ok (t, st)) (hval : validate t st = [])
+    (hloc : locTree t path = some il) (hreg : ∀ v ∈ il.loc.through, v.regular)
+    (ha : Alter b b' (il.pos + r)) (hpr : il.loc.tgt.protects r)
+    (hbig : b.length + 8 < 2 ^ 64)
+    (hflash : findSignature b' = findSignature b)
+    (hscan : ScanKept (b'.drop il.region) il.base il.vol (il.loc.off + r))
+    (hfree : ∀ f, il.loc.tgt = .file f → ¬ FreeMarker b' il.pos) :
+    parseValidate h b' ≠ .ok [] :=
+  alter_detected_image h hparse hval hloc hreg ha hpr hbig hflash hscan hfree
+
+/-- **C09b `alter_detected` on the reference grammar** — the statement of DESIGN §7 with its exceptions
+    spelled out.  For every valid image `i` (`WF` and `Sound`), every node a path selects in `Spec.tree i` and
+    every single-byte alteration `b'` of `ser i` in a protected byte of that node: parsing `b'` fails or validate
+    reports an error.  Nothing is assumed about the parse, validate or the volumes on the path (C01
+    `parseWith_ser`, `c09_validate_wf`, and every volume of the grammar keeps its files behind its headers);
+    what remains are the size bound, the flash-signature condition and the two exceptions. -/
+theorem c09_alter_detected_grammar (i : Img) (hv : Valid i) {b' : Bytes} {path : Path} {il : ImgLoc} {r : Nat}
+    (hloc : locTree (tree i) path = some il)
+    (ha : Alter (ser i) b' (il.pos + r)) (hpr : il.loc.tgt.protects r)
+    (hbig : (ser i).length + 8 < 2 ^ 64)
+    (hflash : findSignature b' = findSignature (ser i))
+    (hscan : ScanKept (b'.drop il.region) il.base il.vol (il.loc.off + r))
+    (hfree : ∀ f, il.loc.tgt = .file f → ¬ FreeMarker b' il.pos) :
+    parseValidate Hooks.none b' ≠ .ok [] :=
+  Fiano.Uefi.C09.alter_detected_grammar i hv hloc ha hpr hbig hflash hscan hfree
+
+/-- `hscan` is automatic for every byte behind the signature of the top-level volume — in particular for
+    every byte of a file and of a nested volume in a volume that keeps its files behind its header -/
+theorem c09_scanKept_far (d : Bytes) (base cur q : Nat) (h : 44 ≤ q) : ScanKept d base cur q :=
+  ⟨by omega, fun h40 => by omega⟩
+
+/-- the verdict `T` the driver computes for the harness (`why`, `imgwhy`: FianoModel/Uefi/ValidateLoc.lean
+    `verdictAt`) is this theorem: on an image that parses and validates cleanly, `T` for "byte `p` becomes `y`"
+    implies that the altered image is refused by the parser or flagged by validate -/
+theorem c09_verdict_T_detected (b : Bytes) (t : Tree) (st : St) (p : Nat) (y : UInt8)
+    (hparse : parseWith Hooks.none (defaultFuel b) b {} = .ok (t, st)) (hval : validate t st = [])
+    (hbig : b.length + 8 < 2 ^ 64) (hv : Fiano.Uefi.C09.verdictAt b (Fiano.Uefi.C09.nodesOf t) p y = 'T') :
+    parseValidate Hooks.none (setByte b p y) ≠ .ok [] :=
+  Fiano.Uefi.C09.verdictAt_T_detected b t st p y hparse hval hbig hv
+
+/-- `hflash` is automatic for every alteration from image offset 20 on -/
+theorem c09_flash_signature_far {b b' : Bytes} {p : Nat} (ha : Alter b b' p) (hp : 20 ≤ p) :
+    findSignature b' = findSignature b := findSignature_alter_far ha hp
+
+/-- `Fiano.Uefi.C09.hyps b path r y` is the executable conjunction of all hypotheses of
+    `c09_alter_detected_image` for "byte `r` of the node `path` selects becomes `y`": when it evaluates to
+    `true` the theorem applies -/
+theorem c09_hyps_sound (b : Bytes) (path : Path) (r : Nat) (y : UInt8) (h : Fiano.Uefi.C09.hyps b path r y = true) :
+    ∃ t st il, parseWith Hooks.none (defaultFuel b) b {} = .ok (t, st) ∧ locTree t path = some il ∧
+      parseValidate Hooks.none (setByte b (il.pos + r) y) ≠ .ok [] :=
+  Fiano.Uefi.C09.hyps_detected b path r y h
+
+open Fiano.Uefi.C09 in
+/-- **non-vacuity of `c09_alter_detected_image`** (kernel evaluation).  `deepImg` is a BIOS region without
+    descriptor: a volume with three files, 16 bytes of padding, a second volume whose only file holds a
+    volume-image section with a third volume inside, a 3-byte tail; `deepFlash` is a flash image (4 KiB
+    descriptor + 4 KiB BIOS region) with the same volumes.  Both are `Valid`; all hypotheses hold for:
+    byte 48 (`HeaderLen`) of the second volume's header (image offset 240 + 48), the attribute byte of the
+    file in the second volume (312 + 19), byte 41 — a *signature* byte — of the nested volume's header
+    (340 + 41), a body byte of the checksummed file in the nested volume (412 + 30), the same nested body
+    byte in the flash image (4508 + 30), and `HeaderLen` of the first volume of the flash image. -/
+theorem c09_sample_deep_hyps :
+    Valid deepImg ∧ Valid deepFlash ∧
+    (whereIs (ser deepImg) [1] == some (240, 224, 240) && whereIs (ser deepImg) [1, 0] == some (312, 224, 240) &&
+     whereIs (ser deepImg) [1, 0, 0] == some (340, 224, 240) && whereIs (ser deepImg) [1, 0, 0, 0] == some (412, 224, 240) &&
+     whereIs (ser deepFlash) [0, 1, 0, 0, 0] == some (4508, 4320, 4336) &&
+     hyps (ser deepImg) [1] 48 0 && hyps (ser deepImg) [1, 0] 19 0 && hyps (ser deepImg) [1, 0, 0] 41 0 &&
+     hyps (ser deepImg) [1, 0, 0, 0] 30 0 && hyps (ser deepFlash) [0, 1, 0, 0, 0] 30 0 &&
+     hyps (ser deepFlash) [0, 0] 48 0) = true := by
+  refine ⟨by decide +kernel, by decide +kernel, by decide +kernel⟩
+
+open Fiano.Uefi.C09 in
+/-- **Exception F-C09-zerovector, witnessed** (corpus/C09/x-zerovector-signature.json, kernel evaluation).
+    `zvImg`: 40 bytes of padding, then a volume whose reserved zero vector reads `_FVG…`.  The image parses
+    and validates cleanly; for "byte 3 of the volume header becomes `H`" (image offset 43) every hypothesis
+    of `c09_alter_detected_image` holds except `ScanKept` (the `false` argument) — and the altered image
+    parses and validates **without any error**: the scan finds a phantom volume 40 bytes earlier that
+    swallows the real one. -/
+theorem c09_exception_zerovector :
+    (isClean (parseValidate Hooks.none (ser zvImg)) && hypsBut (ser zvImg) [0] 3 0x48 false true &&
+     isClean (parseValidate Hooks.none (altered (ser zvImg) 43 0x48))) = true := by decide +kernel
+
+open Fiano.Uefi.C09 in
+/-- **Exception F-C09-freespace, witnessed** (corpus/C09/x-size-becomes-freespace.json, kernel evaluation of
+    a 64 KiB image in ValidateWitnessA/B.lean).  `fsImg`: a RAW file of 0x00FFFF bytes with an erased body,
+    then a checksummed file.  For "size byte 2 of the first file becomes FF" (image offset 94) every
+    hypothesis of `c09_alter_detected_image` holds except `¬ FreeMarker` — and the altered image parses and
+    validates **without any error**: both files have vanished into the free space. -/
+theorem c09_exception_freespace :
+    hypsBut (ser fsImg) [0, 0] 22 0xFF true false = true ∧
+    isClean (parseValidate Hooks.none (altered (ser fsImg) 94 0xFF)) = true := ⟨fs_hyps, fs_missed⟩
+
+/-! ## C09a: images the tool has saved (follow-up wp-c09b) -/
+
+/-- the reader hypothesis of `c09_validate_parse_ser` is discharged by C01 (`parseWith_ser`): parse followed
+    by validate reports nothing on the serialisation of every valid image -/
+theorem c09_validate_ser (i : Img) (hv : Valid i) : parseValidate Hooks.none (ser i) = .ok [] :=
+  Fiano.Uefi.C09.validate_ser i hv
+
+/-- **`validate_saved`, unedited save**: for every valid image, `Save` (parse, assemble, write) succeeds and
+    what it wrote, parsed again, validates without error (C01 `save_identity` ∘ `c09_validate_wf`) -/
+theorem c09_validate_saved_unedited (i : Img) (hv : Valid i) :
+    ∃ out, save Hooks.none (ser i) = .ok out ∧ parseValidate Hooks.none out = .ok [] :=
+  Fiano.Uefi.C09.validate_saved_unedited i hv
+
+/-- **`validate_saved`, per node — files**: a file that satisfies the file rules X1–X5 of C02's independent
+    reader (`Valid.fileOk`: what C02 proves of every pad file and every rebuilt file `Assemble` writes,
+    Props/C02 `padFile_valid`, `asmFile_valid`) and stores FFFFFF in its size field when it is large passes
+    every file check of validate on the node the parser makes of it, whatever follows it in the volume -/
+theorem c09_saved_file_validates {fuel0 o : Nat} {fb rest : Bytes} (hok : Valid.fileOk (fuel0 + 1) fb o = true)
+    (hlarge : Valid.fld fb 19 1 % 2 = 1 → Valid.fld fb 20 3 = 0xFFFFFF)
+    {h : Hooks} {fuel : Nat} {st st1 : St} {f : File}
+    (hp : parseFile h fuel (fb ++ rest) st = .ok (some f, st1)) : validateFileNode f.info f.buf = [] :=
+  Fiano.Uefi.C09.fileOk_validates hok hlarge hp
+
+/-- **… sections**: a section with consistent size fields (`SecSized`: the size fields of C02's `GoodSec`,
+    what `GenSecHeader` writes, Props/C02 `genSecHeader_valid`) passes the section checks of validate -/
+theorem c09_saved_section_validates {sb rest : Bytes} (hgs : Fiano.Uefi.C09.SecSized sb) {h : Hooks} {fuel idx : Nat}
+    {st st1 : St} {s : Section} (hp : parseSection h fuel (sb ++ rest) idx st = .ok (s, st1)) :
+    validateSecNode s.info s.buf = [] := Fiano.Uefi.C09.secSized_validates hgs hp
+
+/-- **… volumes**: a volume that satisfies the rules V1–V7 of C02's independent reader (`Valid.fvOk`: what
+    C02 proves of every volume a relayout writes, Props/C02 `relayout_volume_valid`), has revision 2 and a
+    file-system GUID the tool knows passes every volume check of validate — `HeaderLen` against the block
+    map, length, signature, the 16-bit header checksum -/
+theorem c09_saved_fv_validates {fuel0 : Nat} {b rest : Bytes} (hok : Valid.fvOk (fuel0 + 1) b = true)
+    (hrev : rd b 55 1 = 2) (hguid : knownFvGuids.contains (slice b 16 16) = true)
+    {h : Hooks} {fuel off : Nat} {rs : Bool} {st st1 : St} {fv : Fv}
+    (hp : parseFv h fuel (b ++ rest) off rs st = .ok (fv, st1)) : validateFvNode fv.info fv.buf = [] :=
+  Fiano.Uefi.C09.fvOk_validates hok hrev hguid hp
+
+/-- **`validate_saved`, pad files** (C02 `padFile_valid` ∘ bridge): the pad file `Assemble` creates for a gap
+    — any size from 24 bytes on, either erase polarity, both header forms — passes every file check of
+    validate once the saved image is parsed again -/
+theorem c09_saved_padFile_validates (pol : UInt8) (size : Nat) (h24 : 24 ≤ size) (h64 : size < 2 ^ 64)
+    (hp : pol = 0xFF ∨ pol = 0) :
+    ∃ f, mkPadFile pol size = .ok f ∧
+      ∀ (h : Hooks) (fuel : Nat) (rest : Bytes) (st st1 : St) (g : File),
+        parseFile h fuel (f.buf ++ rest) st = .ok (some g, st1) → validateFileNode g.info g.buf = [] :=
+  Fiano.Uefi.C09.padFile_validates pol size h24 h64 hp
+
+/-- **`validate_saved`, rebuilt files** (C02 `asmFile_valid` ∘ bridge): the file `Assemble` rebuilds from its
+    sections (`SetSize`, `ChecksumAndAssemble`) passes every file check of validate once the saved image is
+    parsed again; hypotheses of C02 `asmFile_valid` (the sections have consistent sizes, header fields in
+    range) — the alignment hypothesis is not needed, validate does not look at it -/
+theorem c09_saved_asmFile_validates (i : FileInfo) (secs : List Bytes)
+    (hsec : ∀ b ∈ secs, GoodSec b) (hb : joinEnd secs 0 < 2 ^ 62)
+    (hg : i.guid.length = 16) (ht : i.type < 256) (ha : i.attrs < 256) (hst : i.state < 256)
+    {h : Hooks} {fuel : Nat} {rest : Bytes} {st st1 : St} {g : File}
+    (hp : parseFile h fuel
+      ((checksumAndAssemble { i with attrs := (setSize i.attrs (24 + (joinPad4 secs []).length) true).1,
+                                      size3 := (setSize i.attrs (24 + (joinPad4 secs []).length) true).2.1,
+                                      extSize := (setSize i.attrs (24 + (joinPad4 secs []).length) true).2.2 }
+          (joinPad4 secs [])).2 ++ rest) st = .ok (some g, st1)) :
+    validateFileNode g.info g.buf = [] :=
+  Fiano.Uefi.C09.asmFile_validates i secs hsec hb hg ht ha hst hp
+
+/-- **`validate_saved`, regenerated sections** (C02 `genSecHeader_valid` ∘ bridge): the section
+    `GenSecHeader` writes (UI, version, depex regenerated by Assemble; the PE32 section of replace_pe32;
+    GUID-defined with its sub-header) passes the section checks of validate once parsed again -/
+theorem c09_saved_genSecHeader_validates (i i' : SecInfo) (body buf' : Bytes)
+    (hgen : genSecHeader i body = .ok (i', buf'))
+    (ht : i.type < 256) (hnf : i.type ≠ 0x17) (hts : i.type ≠ 0x02 → i.ts = none)
+    (hg : ∀ g, i.ts = some g → g.guid.length = 16) (hb : body.length + 28 < 4294967296)
+    {h : Hooks} {fuel idx : Nat} {rest : Bytes} {st st1 : St} {s : Section}
+    (hp : parseSection h fuel (buf' ++ rest) idx st = .ok (s, st1)) : validateSecNode s.info s.buf = [] :=
+  Fiano.Uefi.C09.genSecHeader_validates i i' body buf' hgen ht hnf hts hg hb hp
+
+/-- **`validate_saved`, relaid-out volumes** (C02 `relayout_volume_valid` ∘ bridge): under the hypotheses of
+    C02's theorem (a relayout that neither grows the volume nor switches it to FFSv3, on a volume node whose
+    buffer is the whole volume and passes the reader's header rules), when the volume had revision 2 and a
+    file-system GUID the tool knows before the edit (the header patches do not touch those bytes: proved),
+    the volume `Assemble` writes passes every volume check of validate once the saved image is parsed again -/
+theorem c09_saved_relayout_validates (i : FvInfo) (buf : Bytes) (files : List File) (st : St) (i' : FvInfo)
+    (out : Bytes) (st' : St)
+    (hr : relayoutFv i buf files st = .ok (i', out, st'))
+    (hp : st.pol = 0xFF ∨ st.pol = 0)
+    (hgood : ∀ f ∈ files, GoodFile st.pol (f.info.attrs, f.buf))
+    (hbound : layEnd (placed files) i.dataOffset < 2 ^ 62)
+    (hfit : layEnd (placed files) i.dataOffset ≤ i.length)
+    (hfull : buf.length = i.length) (hok : hdrOk buf = true) (hffs : fvIsFfs buf = true)
+    (hhl : i.headerLen = Valid.fld buf 48 2)
+    (hcnt : ∀ b0 bs, i.blocks = b0 :: bs → b0.count = Valid.fld buf 56 4)
+    (hnoswap : (st.ffs3 && i.fsGuid == guidFFS2) = false)
+    (hD : i.dataOffset = Valid.alignUp (fvFirst buf) 8) (hD64 : 64 ≤ i.dataOffset)
+    (her : Valid.allAre st.pol ((buf.drop (fvFirst buf)).take (i.dataOffset - fvFirst buf)) = true)
+    (hpol : st.pol = fvErased buf)
+    (hext : Valid.fld buf 52 2 ≠ 0 → Valid.fld buf 52 2 + 20 ≤ i.dataOffset)
+    (hhD : Valid.fld buf 48 2 ≤ i.dataOffset)
+    (hrev : rd buf 55 1 = 2) (hguid : knownFvGuids.contains (slice buf 16 16) = true)
+    {h : Hooks} {fuel off : Nat} {rs : Bool} {rest : Bytes} {st0 st1 : St} {fv : Fv}
+    (hpv : parseFv h fuel (out ++ rest) off rs st0 = .ok (fv, st1)) : validateFvNode fv.info fv.buf = [] :=
+  Fiano.Uefi.C09.relayout_volume_validates i buf files st i' out st' hr hp hgood hbound hfit hfull hok hffs hhl hcnt
+    hnoswap hD hD64 her hpol hext hhD hrev hguid hpv
+
+open Fiano.Uefi.C09 in
+/-- non-vacuity of the three bridges: the checksummed file of the nested sample volume, a RAW section of 8
+    bytes, and the nested sample volume itself satisfy their hypotheses -/
+theorem c09_sample_saved_hyps :
+    (Valid.fileOk 1 (serFile (.leaf (g 0x40) 39 220 1 0x40 0xF8 false [1, 2, 3, 4, 5, 6, 7, 8])) 72 &&
+     decide (Valid.fld (serFile (.leaf (g 0x40) 39 220 1 0x40 0xF8 false [1, 2, 3, 4, 5, 6, 7, 8])) 19 1 % 2 = 0) &&
+     Valid.fvOk 9 (serFv fvC) && decide (rd (serFv fvC) 55 1 = 2) &&
+     knownFvGuids.contains (slice (serFv fvC) 16 16)) = true ∧
+    SecSized [8, 0, 0, 0x19, 1, 2, 3, 4] :=
+  ⟨by decide +kernel, ⟨by decide, by decide, by decide⟩⟩
+
+/-! ## C09a: `regionsValid` is not a hypothesis any more (follow-up wp-c09b) -/
+
+/-- **`regionsValid` follows from well-formedness**: every region of `Spec.tree` of a well-formed flash image
+    carries a valid table entry — the selected entry of its kind for a region the table describes, the entry
+    the reader synthesises for a gap (valid because the flash has fewer than 0xFFFF blocks) -/
+theorem c09_regionsValid_of_wf (f : FlashI) (h : WF (.flash f)) : regionsValid f = true :=
+  Fiano.Uefi.C09.wfFlash_regionsValid f h
+
+/-- the soundness conditions without the region-entry conjunct -/
+def SoundCore : Img → Prop
+  | .flash f => soundDesc f.desc = true ∧ f.regions.all soundReg = true
+  | .bios b => soundBios b = true
+
+/-- **C09a with `Sound` reduced to what is genuinely extra**: well-formed + checksums / revision / known
+    file system / descriptor-map bases ⇒ validate reports nothing -/
+theorem c09_validate_wf_core (i : Img) (hw : WF i) (hs : SoundCore i) : validate (tree i) (stOf i) = [] := by
+  apply c09_validate_wf i
+  refine ⟨hw, ?_⟩
+  cases i with
+  | flash f => exact Fiano.Uefi.C09.sound_of_wf_flash f hw hs.1 hs.2
+  | bios b => exact hs
+
+open Fiano.Uefi.C09 in
+/-- non-vacuity of `c09_validate_wf_core` / `c09_regionsValid_of_wf`: the sample flash image is well formed
+    and satisfies `SoundCore` (kernel evaluation) -/
+theorem c09_sample_soundCore : WF deepFlash ∧ SoundCore deepFlash :=
+  ⟨by decide +kernel, ⟨by decide +kernel, by decide +kernel⟩⟩
 
 end Fiano.Props.C09
